@@ -2,10 +2,21 @@ package checks
 
 // C18 part 3: GET concurrency limit of the real api.New(...).Register mux.
 //
-// Real goroutines, no bubble, no sleeps: GET handlers park inside an injected
-// blocking GroupFunc / alerts provider / router handler; the harness learns
-// that a request was admitted (hook entered) or answered (ServeHTTP returned)
-// from channels only.
+// Real goroutines, no sleeps: GET handlers park inside an injected blocking
+// GroupFunc / alerts provider / router handler; the harness learns that a
+// request was admitted (hook entered) or answered (ServeHTTP returned) from
+// channels only. The oracle counts RUNNING handlers (entered the gate and not
+// yet released by the harness), not responses.
+//
+// timeout_ms = 0: no request timeout, no bubble (as api.Options.Timeout 0).
+// timeout_ms > 0: Options.Timeout (--web.timeout) is set and the same
+// interpreter runs inside a synctest bubble, so the http.TimeoutHandler's
+// clock is virtual: a parked GET gets its "Exceeded configured timeout" 503
+// exactly when the harness blocks on that response (op "await"; nothing else
+// lets virtual time pass), at no real-time cost and without any race between
+// the timer and the harness. After the timeout answer the handler is still
+// running (the harness holds its gate): it must keep its slot, further GETs
+// must be refused and counted, and the in-flight gauge must still count it.
 
 import (
 	"bytes"
@@ -13,7 +24,9 @@ import (
 	"fmt"
 	"net/http"
 	"net/http/httptest"
+	"strings"
 	"testing"
+	"testing/synctest"
 	"time"
 
 	"github.com/prometheus/client_golang/prometheus"
@@ -36,7 +49,7 @@ import (
 )
 
 type c18ConcOp struct {
-	Kind  string `json:"kind"`            // get-block | get-quick | post | release
+	Kind  string `json:"kind"`            // get-block | get-quick | post | release | await (timeout_ms > 0 only: block until every parked GET's client has its timeout answer)
 	Path  int    `json:"path,omitempty"`  // which endpoint of that kind
 	Which int    `json:"which,omitempty"` // release: index into the parked requests (mod their number)
 }
@@ -45,6 +58,8 @@ type c18ConcScenario struct {
 	C      int         `json:"c"`      // Options.Concurrency
 	Prefix string      `json:"prefix"` // route prefix: "/" or "/am"
 	Ops    []c18ConcOp `json:"ops"`
+	// Options.Timeout in (virtual) milliseconds; 0 = no request timeout
+	TimeoutMS int `json:"timeout_ms,omitempty"`
 }
 
 var (
@@ -58,16 +73,23 @@ func c18GenConc(t *rapid.T) c18ConcScenario {
 		C:      rapid.IntRange(1, 4).Draw(t, "c"),
 		Prefix: rapid.SampledFrom([]string{"/", "/", "/am"}).Draw(t, "prefix"),
 	}
+	sc.TimeoutMS = rapid.SampledFrom([]int{0, 0, 0, 20, 30, 50}).Draw(t, "timeout_ms")
+	kinds := 9
+	if sc.TimeoutMS > 0 {
+		kinds = 11 // 10, 11: await
+	}
 	n := rapid.IntRange(3, 24).Draw(t, "nops")
 	for i := 0; i < n; i++ {
 		var op c18ConcOp
-		switch k := rapid.IntRange(0, 9).Draw(t, "kind"); {
+		switch k := rapid.IntRange(0, kinds).Draw(t, "kind"); {
 		case k <= 4:
 			op = c18ConcOp{Kind: "get-block", Path: rapid.IntRange(0, len(c18BlockPaths)-1).Draw(t, "path")}
 		case k == 5:
 			op = c18ConcOp{Kind: "get-quick", Path: rapid.IntRange(0, len(c18QuickPaths)-1).Draw(t, "path")}
 		case k <= 7:
 			op = c18ConcOp{Kind: "post", Path: rapid.IntRange(0, len(c18PostPaths)-1).Draw(t, "path")}
+		case k >= 10:
+			op = c18ConcOp{Kind: "await"}
 		default:
 			op = c18ConcOp{Kind: "release", Which: rapid.IntRange(0, 3).Draw(t, "which")}
 		}
@@ -77,13 +99,19 @@ func c18GenConc(t *rapid.T) c18ConcScenario {
 }
 
 // c18Gate is where admitted blocking GETs park.
-type c18Gate struct{ entered chan chan struct{} }
+type c18Gate struct {
+	entered  chan chan struct{}
+	shutdown chan struct{} // closed at the end of a case: nobody parks any more
+}
 
 // park announces the caller and blocks until released.
 func (g *c18Gate) park() {
 	release := make(chan struct{})
-	g.entered <- release
-	<-release
+	select {
+	case g.entered <- release:
+		<-release
+	case <-g.shutdown:
+	}
 }
 
 // c18BlockingProvider parks GetPending (GET /api/v2/alerts); everything else is the real provider.
@@ -98,14 +126,52 @@ func (p *c18BlockingProvider) GetPending() provider.AlertIterator {
 }
 
 type c18Parked struct {
-	release chan struct{}
-	done    chan *httptest.ResponseRecorder
-	path    string
+	release  chan struct{}
+	done     chan *httptest.ResponseRecorder
+	path     string
+	answered bool // the client already got the timeout answer; the handler is still running
 }
 
-const c18ConcMetric = "alertmanager_http_concurrency_limit_exceeded_total"
+const (
+	c18ConcMetric     = "alertmanager_http_concurrency_limit_exceeded_total"
+	c18InFlightMetric = "alertmanager_http_requests_in_flight"
+	c18TimeoutMsg     = "Exceeded configured timeout"
+)
+
+// c18Gauge reads an unlabelled-by-us gauge from the registry.
+func c18Gauge(reg *prometheus.Registry, metric string) (float64, error) {
+	mfs, err := reg.Gather()
+	if err != nil {
+		return 0, err
+	}
+	for _, mf := range mfs {
+		if mf.GetName() == metric {
+			var sum float64
+			for _, m := range mf.GetMetric() {
+				sum += m.GetGauge().GetValue()
+			}
+			return sum, nil
+		}
+	}
+	return 0, fmt.Errorf("metric %s not exported", metric)
+}
 
 func c18ExecConc(sc c18ConcScenario) (res pbt.Result) {
+	if sc.TimeoutMS > 0 {
+		// virtual clock for the TimeoutHandler; settle = every goroutine of the
+		// case has finished or is parked on a channel
+		bubble(func() { res = c18RunConc(sc, synctest.Wait) })
+		return res
+	}
+	return c18RunConc(sc, func() {})
+}
+
+// c18RunConc interprets the scenario. settle is called where the harness has
+// released a handler whose client is no longer waiting for it (so that no
+// response marks the end of the handler): it returns once that handler has
+// left the code under test. Without a timeout every handler's end is marked by
+// its response and settle does nothing.
+func c18RunConc(sc c18ConcScenario, settle func()) (res pbt.Result) {
 	compat.InitFromFlags(nopLog, featurecontrol.NoopFlags{})
 	reg := prometheus.NewRegistry()
 	ctx, cancel := context.WithCancel(context.Background())
@@ -121,8 +187,10 @@ func c18ExecConc(sc c18ConcScenario) (res pbt.Result) {
 		res.Fail("harness", "silence.New: %v", err)
 		return res
 	}
-	gate := &c18Gate{entered: make(chan chan struct{})}
+	gate := &c18Gate{entered: make(chan chan struct{}), shutdown: make(chan struct{})}
+	timeout := time.Duration(sc.TimeoutMS) * time.Millisecond
 	a, err := api.New(api.Options{
+		Timeout:        timeout,
 		Alerts:         &c18BlockingProvider{Alerts: alerts, gate: gate},
 		Silences:       sils,
 		GroupMutedFunc: func(string, string) ([]string, bool) { return nil, false },
@@ -182,25 +250,61 @@ func c18ExecConc(sc c18ConcScenario) (res pbt.Result) {
 		return done
 	}
 
+	// parked = the GET handlers that are running: they entered the gate and the
+	// harness has not released them, whether or not their client still waits.
 	var parked []c18Parked
+	// releaseAt lets handler k run to its end. It returns the response, or nil
+	// if the client had its timeout answer before (then settle marks the end).
 	releaseAt := func(k int) *httptest.ResponseRecorder {
 		p := parked[k]
 		parked = append(parked[:k:k], parked[k+1:]...)
 		close(p.release)
+		if p.answered {
+			settle()
+			return nil
+		}
 		return <-p.done
 	}
 	defer func() {
+		close(gate.shutdown)
 		for len(parked) > 0 {
 			releaseAt(0)
 		}
 	}()
+	answered := func() (n int) {
+		for _, p := range parked {
+			if p.answered {
+				n++
+			}
+		}
+		return n
+	}
+	// isTimeoutAnswer: the 503 of the request timeout, which is not a refusal
+	// by the concurrency limit (only possible with timeout_ms > 0).
+	isTimeoutAnswer := func(rec *httptest.ResponseRecorder) bool {
+		return sc.TimeoutMS > 0 && rec.Code == http.StatusServiceUnavailable && strings.Contains(rec.Body.String(), c18TimeoutMsg)
+	}
+	// the in-flight gauge counts the GET handlers that are running
+	checkGauge := func(where string) {
+		settle()
+		g, err := c18Gauge(reg, c18InFlightMetric)
+		if err != nil {
+			res.Fail("harness", "gather: %v", err)
+			return
+		}
+		if g != float64(len(parked)) {
+			res.Add(pbt.V("gauge-mismatch", "%s: %s reads %v while %d GET handlers are running (%d of them after their client got the timeout answer)", where, c18InFlightMetric, g, len(parked), answered()).
+				With("gauge", g).With("running", len(parked)).With("timed_out_running", answered()).With("limit", sc.C))
+		}
+	}
 
-	// get issues one GET and judges it against the number of parked GETs.
+	// get issues one GET and judges it against the number of running GET handlers.
 	// blocking: the endpoint parks once admitted.
-	var sawRefusal, sawPostAtLimit, sawReuse bool
-	releases := 0
+	var sawRefusal, sawPostAtLimit, sawReuse, sawRefusalAfterTimeout, sawReuseAfterTimeout bool
+	releases, timedOutReleases := 0, 0
 	get := func(where, path string, blocking bool) {
 		full := len(parked) >= sc.C
+		timedOut := answered()
 		c0 := counter()
 		done := start(http.MethodGet, path, nil)
 		select {
@@ -212,8 +316,8 @@ func c18ExecConc(sc c18ConcScenario) (res pbt.Result) {
 				return
 			}
 			if full {
-				res.Add(pbt.V("admitted-above-limit", "%s: GET %s entered its handler while %d GETs were already in flight (concurrency %d)", where, path, len(parked)-1, sc.C).
-					With("in_flight", len(parked)-1).With("limit", sc.C))
+				res.Add(pbt.V("admitted-above-limit", "%s: GET %s entered its handler while %d GET handlers were already running (%d of them after their client got the timeout answer; concurrency %d)", where, path, len(parked)-1, timedOut, sc.C).
+					With("in_flight", len(parked)-1).With("timed_out_running", timedOut).With("limit", sc.C))
 			}
 			if c1 := counter(); c1 != c0 {
 				res.Add(pbt.V("counter-on-admission", "%s: %s moved by %v although the GET was admitted", where, c18ConcMetric, c1-c0))
@@ -221,20 +325,31 @@ func c18ExecConc(sc c18ConcScenario) (res pbt.Result) {
 			if releases > 0 && !full {
 				sawReuse = true
 			}
+			if timedOutReleases > 0 && !full {
+				sawReuseAfterTimeout = true
+			}
 		case rec := <-done:
 			c1 := counter()
 			switch {
+			case isTimeoutAnswer(rec):
+				// the request neither parked in its handler nor was answered by
+				// anybody for the whole (virtual) timeout
+				res.Add(pbt.V("stuck-until-timeout", "%s: GET %s with %d of %d GET handlers running was neither served nor refused at once; it got the timeout answer: %s", where, path, len(parked), sc.C, rec.Body.String()).
+					With("in_flight", len(parked)).With("limit", sc.C))
 			case rec.Code == http.StatusServiceUnavailable && !full:
 				res.Add(pbt.V("refused-below-limit", "%s: GET %s answered 503 with %d of %d GETs in flight: %s", where, path, len(parked), sc.C, rec.Body.String()).
-					With("in_flight", len(parked)).With("limit", sc.C).With("after_release", releases > 0))
+					With("in_flight", len(parked)).With("limit", sc.C).With("after_release", releases > 0).With("after_timed_out_release", timedOutReleases > 0))
 			case rec.Code == http.StatusServiceUnavailable:
 				sawRefusal = true
+				if timedOut > 0 {
+					sawRefusalAfterTimeout = true
+				}
 				if c1-c0 != 1 {
 					res.Add(pbt.V("refusal-not-counted", "%s: GET %s answered 503 but %s moved by %v", where, path, c18ConcMetric, c1-c0))
 				}
 			case full:
-				res.Add(pbt.V("served-above-limit", "%s: GET %s answered %d with %d GETs in flight (concurrency %d)", where, path, rec.Code, len(parked), sc.C).
-					With("in_flight", len(parked)).With("limit", sc.C))
+				res.Add(pbt.V("served-above-limit", "%s: GET %s answered %d with %d GET handlers running (%d of them after their client got the timeout answer; concurrency %d)", where, path, rec.Code, len(parked), timedOut, sc.C).
+					With("in_flight", len(parked)).With("timed_out_running", timedOut).With("limit", sc.C))
 			case blocking:
 				res.Fail("harness", "%s: blocking endpoint %s answered %d %s without parking", where, path, rec.Code, rec.Body.String())
 			case rec.Code != http.StatusOK:
@@ -246,12 +361,67 @@ func c18ExecConc(sc c18ConcScenario) (res pbt.Result) {
 				if releases > 0 {
 					sawReuse = true
 				}
+				if timedOutReleases > 0 {
+					sawReuseAfterTimeout = true
+				}
 			}
+		}
+	}
+	post := func(where, path string, body []byte) {
+		c0 := counter()
+		rec := <-start(http.MethodPost, path, body)
+		if len(parked) >= sc.C {
+			sawPostAtLimit = true
+		}
+		if rec.Code == http.StatusServiceUnavailable {
+			res.Add(pbt.V("post-limited", "%s: POST %s answered 503 with %d GETs in flight: %s", where, path, len(parked), rec.Body.String()).
+				With("in_flight", len(parked)).With("limit", sc.C))
+		} else if rec.Code != http.StatusOK {
+			res.Fail("harness", "%s: POST %s answered %d %s", where, path, rec.Code, rec.Body.String())
+		}
+		if c1 := counter(); c1 != c0 {
+			res.Add(pbt.V("post-counted", "%s: %s moved by %v on a POST", where, c18ConcMetric, c1-c0))
+		}
+	}
+	// await blocks until the client of every running GET has its answer, which
+	// can only be the timeout answer (the handler stays parked). Inside the
+	// bubble this is what lets the virtual clock reach the timeouts.
+	awaited := 0
+	await := func(where string) {
+		c0 := counter()
+		for k := range parked {
+			if parked[k].answered {
+				continue
+			}
+			select {
+			case rec := <-parked[k].done:
+				parked[k].answered = true
+				awaited++
+				if !isTimeoutAnswer(rec) {
+					res.Fail("harness", "%s: GET %s whose handler is still parked was answered %d %s", where, parked[k].path, rec.Code, rec.Body.String())
+				}
+			case <-time.After(100*timeout + time.Minute): // virtual
+				res.Add(pbt.V("timeout-not-enforced", "%s: GET %s parked in its handler got no answer within 100 times the request timeout of %v", where, parked[k].path, timeout))
+				return
+			}
+		}
+		if c1 := counter(); c1 != c0 {
+			res.Add(pbt.V("counter-on-timeout", "%s: %s moved by %v although no GET was refused (parked GETs got their timeout answers)", where, c18ConcMetric, c1-c0))
+		}
+	}
+	release := func(where string, k int) {
+		wasAnswered := parked[k].answered
+		rec := releaseAt(k)
+		releases++
+		if wasAnswered {
+			timedOutReleases++
+		} else if rec.Code != http.StatusOK {
+			res.Fail("harness", "%s: released GET answered %d %s", where, rec.Code, rec.Body.String())
 		}
 	}
 
 	for i, op := range sc.Ops {
-		where := fmt.Sprintf("step %d %+v (%d parked)", i, op, len(parked))
+		where := fmt.Sprintf("step %d %+v (%d running, %d of them timed out)", i, op, len(parked), answered())
 		switch op.Kind {
 		case "get-block":
 			get(where, c18BlockPaths[op.Path%len(c18BlockPaths)], true)
@@ -268,56 +438,67 @@ func c18ExecConc(sc c18ConcScenario) (res pbt.Result) {
 				body = []byte(fmt.Sprintf(`{"matchers":[{"name":"a","value":"b","isRegex":false}],"startsAt":%q,"endsAt":%q,"createdBy":"c18","comment":"c"}`,
 					now.Format(time.RFC3339Nano), now.Add(time.Hour).Format(time.RFC3339Nano)))
 			}
-			c0 := counter()
-			rec := <-start(http.MethodPost, path, body)
-			if len(parked) >= sc.C {
-				sawPostAtLimit = true
-			}
-			if rec.Code == http.StatusServiceUnavailable {
-				res.Add(pbt.V("post-limited", "%s: POST %s answered 503 with %d GETs in flight: %s", where, path, len(parked), rec.Body.String()).
-					With("in_flight", len(parked)).With("limit", sc.C))
-			} else if rec.Code != http.StatusOK {
-				res.Fail("harness", "%s: POST %s answered %d %s", where, path, rec.Code, rec.Body.String())
-			}
-			if c1 := counter(); c1 != c0 {
-				res.Add(pbt.V("post-counted", "%s: %s moved by %v on a POST", where, c18ConcMetric, c1-c0))
-			}
+			post(where, path, body)
 		case "release":
 			if len(parked) == 0 {
 				continue
 			}
-			rec := releaseAt(op.Which % len(parked))
-			releases++
-			if rec.Code != http.StatusOK {
-				res.Fail("harness", "%s: released GET answered %d %s", where, rec.Code, rec.Body.String())
+			release(where, op.Which%len(parked))
+		case "await":
+			if sc.TimeoutMS == 0 {
+				continue
 			}
+			await(where)
+		}
+		if len(res.Violations) == 0 {
+			checkGauge(where)
 		}
 		if len(res.Violations) > 0 {
 			return res
 		}
 	}
 	genRefusal, genPostAtLimit, genReuse := sawRefusal, sawPostAtLimit, sawReuse
+	genRefusalAfterTimeout, genReuseAfterTimeout, genAwaited := sawRefusalAfterTimeout, sawReuseAfterTimeout, awaited
 	// after release GETs succeed again: drain, then the full capacity must be usable
 	for len(parked) > 0 {
-		releaseAt(0)
-		releases++
+		release("final phase, releasing everything", 0)
 	}
+	checkGauge("final phase, after releasing everything")
 	for k := 0; k < sc.C && len(res.Violations) == 0; k++ {
 		get(fmt.Sprintf("final phase, GET %d of %d after releasing everything", k+1, sc.C), c18BlockPaths[k%len(c18BlockPaths)], true)
 	}
+	if len(res.Violations) == 0 && sc.TimeoutMS > 0 {
+		// the clients give up, the handlers go on: the capacity stays used
+		await("final phase, awaiting the timeout answers of the whole capacity")
+	}
+	if len(res.Violations) == 0 {
+		checkGauge("final phase, whole capacity in use")
+	}
 	if len(res.Violations) == 0 {
 		get("final phase, one GET beyond the capacity", c18QuickPaths[0], false)
-		rec := <-start(http.MethodPost, c18PostPaths[2], nil)
-		if rec.Code != http.StatusOK {
-			res.Add(pbt.V("post-limited", "final phase: POST with %d GETs in flight answered %d %s", len(parked), rec.Code, rec.Body.String()).
-				With("in_flight", len(parked)).With("limit", sc.C))
-		}
+		post(fmt.Sprintf("final phase, POST with %d GET handlers running", len(parked)), c18PostPaths[2], nil)
+	}
+	if len(res.Violations) == 0 && sc.TimeoutMS > 0 {
+		// a handler that ends after its client's timeout gives its slot back
+		release("final phase, releasing one timed-out GET", 0)
+		get("final phase, one GET after a timed-out handler ended", c18QuickPaths[0], false)
+	}
+	if len(res.Violations) == 0 {
+		checkGauge("final phase, end")
 	}
 
-	// the final phase always produces the three events; the rule and the
-	// histogram count only what the generated part of the history reached
+	// the final phase always produces the events; the rule and the histogram
+	// count only what the generated part of the history reached
 	res.NonTrivial = genRefusal && genPostAtLimit && genReuse
+	if sc.TimeoutMS > 0 {
+		res.NonTrivial = res.NonTrivial && genRefusalAfterTimeout
+	}
 	res.Class(fmt.Sprintf("c=%d", sc.C))
+	if sc.TimeoutMS > 0 {
+		res.Class("timeout>0")
+	} else {
+		res.Class("timeout=0")
+	}
 	if genRefusal {
 		res.Class("refused-503")
 	}
@@ -327,14 +508,23 @@ func c18ExecConc(sc c18ConcScenario) (res pbt.Result) {
 	if genReuse {
 		res.Class("slot-reused")
 	}
+	if genAwaited > 0 {
+		res.Class("handler-outlived-timeout")
+	}
+	if genRefusalAfterTimeout {
+		res.Class("refused-503-while-timed-out-handlers-hold-slots")
+	}
+	if genReuseAfterTimeout {
+		res.Class("slot-reused-after-timed-out-handler-ended")
+	}
 	return res
 }
 
 func TestC18GetConcurrency(t *testing.T) {
 	pbt.Run(t, pbt.Spec[c18ConcScenario]{
 		Property: "C18", Name: "C18GetConcurrency",
-		Rule: "concurrency c∈1..4, route prefix / or /am, generated order of parking GETs (groups / alerts / router), quick GETs, POSTs and releases against the real api.New(...).Register mux, " +
-			"then a fixed final phase (release all, refill the whole capacity, one GET beyond it, one POST); non-trivial iff within the generated part a GET was refused with 503, a POST was issued with c GETs parked, and a slot was used again after a release",
+		Rule: "concurrency c∈1..4, route prefix / or /am, request timeout 0 (half of the cases) or 20/30/50 virtual ms, generated order of parking GETs (groups / alerts / router), quick GETs, POSTs, releases and (with a timeout) awaits of the timeout answers of all parked GETs against the real api.New(...).Register mux; judged on the number of GET handlers that are running (parked and not released, also after their client's timeout answer); " +
+			"then a fixed final phase (release all, refill the whole capacity, with a timeout await the timeout answers, one GET beyond the capacity, one POST, with a timeout end one timed-out handler and GET again); non-trivial iff within the generated part a GET was refused with 503, a POST was issued with c GET handlers running, a slot was used again after a release and, with a timeout, a GET was refused while a handler whose client had timed out held a slot",
 		Gen:  c18GenConc,
 		Exec: c18ExecConc,
 	})
